@@ -40,7 +40,9 @@ OPTS = {"dw_prob": 0.3}
 
 RESERVED = re.compile(r"^(_pt_.*|_[0-9]+|_r[0-9]+|_in[0-9]+)$")
 FIXED = ["pt_temp", "temp_0", "x_dim0", "acc_x", "_temp", "pt_data", "_ptt", "out", "_pt", "in0",
-         "r0", "dim0", "acc", "n", "i", "tmp", "__pt_temp", "pt_out", "_ptout", "x_offset"]
+         "r0", "dim0", "acc", "n", "i", "tmp", "__pt_temp", "pt_out", "_ptout", "x_offset",
+         # names that only START like the reserved index variables _0, _1, ...
+         "_0th", "_1x", "_2_n", "_12abc", "_0_"]
 RESERVED_SAMPLES = ["_pt_temp", "_pt_temp_0", "_pt_data", "_pt_data_0", "_pt_out", "_pt_in",
                     "_0", "_1", "_r0", "_in0", "_in1", "_pt_sum_r0", "_pt_subst"]
 
@@ -130,6 +132,12 @@ def run_named(spec: dict[str, Any], naming: dict[str, Any], col: common.Collecto
             col.histo("either_outcome", "construction-error:" + type(e).__name__)
             return
         col.histo("construction_failed", type(e).__name__)
+        if naming.get("scenario") != "baseline" and "_baseline_ok" in naming:
+            # the default-named program builds: a user name outside the reserved patterns
+            # was refused
+            col.violation(f"C15:legal-name-rejected:{type(e).__name__}@{common.exc_site(e)}",
+                          f"building the program with these (non-reserved) names raises "
+                          f"{type(e).__name__}: {str(e)[:140]}", wit)
         return
     outs = {out_names.get(k, k): v for k, v in b.outputs().items()}
     # scenario "clash": a second, distinct placeholder with the name of an existing one
